@@ -549,8 +549,8 @@ def dumped_graph(ctx, cfgname, tag, lifecycle=False, removal=False):
             raise MachineryError("TunnelEndpoint %s: TLC reports %s on the specification itself" % (cfgname, r.violated))
         ctx.add_tlc(tag, r)
         check_coverage(r, cfgname, lifecycle)
-        if removal and (r.coverage.get("RemovalDue", (0, 0))[0] == 0 or r.coverage.get("Expire", (0, 0))[0] == 0):
-            raise MachineryError("TunnelEndpoint %s: RemovalDue / Expire never changed the table" % cfgname)
+        if removal and (r.coverage.get("RemovalDue", (0, 0))[1] == 0 or r.coverage.get("Expire", (0, 0))[1] == 0):
+            raise MachineryError("TunnelEndpoint %s: RemovalDue / Expire never taken" % cfgname)
         return parse_dot(dot)
     finally:
         shutil.rmtree(tmp, ignore_errors=True)
